@@ -88,11 +88,21 @@ KF_C02_LongName(fields, cols) ==
 \* An exclusive range whose lower bound is a number and whose upper bound is a string: rang() (inline) falls
 \* through to the string case and renders an inclusive BETWEEN, rangParam() looks at the kind of the FIRST
 \* parameter only and renders exclusive numeric comparisons.  Signature on the two ASTs and the parameters.
-KF_C04_MixedKindRange(inl, par, params) ==
+MixedShape(inl, par) ==
   /\ inl.k = "between" /\ inl.lo.k = "const" /\ inl.lo.ty # "str" /\ inl.hi.k = "const" /\ inl.hi.ty = "str"
   /\ par.k = "bool" /\ par.op = "AND" /\ Len(par.args) = 2 /\ par.args[1].k = "cmp" /\ par.args[1].op = ">"
   /\ par.args[2].k = "cmp" /\ par.args[2].op = "<"
-  /\ Len(params) = 2 /\ params[1].ty # "str" /\ params[2].ty = "str"
+\* the same pair of shapes at the same place of the two ASTs (the range may be the value of a field group, f:<(g:{1 TO z}))
+RECURSIVE MixedAt(_,_)
+MixedAt(inl, par) ==
+  \/ MixedShape(inl, par)
+  \/ /\ inl.k = "cmp" /\ par.k = "cmp" /\ inl.op = par.op
+     /\ (MixedAt(inl.l, par.l) \/ MixedAt(inl.r, par.r))
+  \/ /\ inl.k = "bool" /\ par.k = "bool" /\ inl.op = par.op /\ Len(inl.args) = Len(par.args)
+     /\ \E i \in DOMAIN inl.args : MixedAt(inl.args[i], par.args[i])
+KF_C04_MixedKindRange(inl, par, params) ==
+  /\ MixedAt(inl, par)
+  /\ \E i \in 1..(Len(params) - 1) : params[i].ty # "str" /\ params[i + 1].ty = "str"
 
 \* ---- C04-numeric-field-range ------------------------------------------------------------------------------
 \* A number in field position (1:[1 TO 2]) is not a column but a literal, so RenderParam turns it into a
